@@ -368,7 +368,13 @@ impl VariablesState {
                 _ => false,
             },
             ValueType::List(val) => match &default_val.value {
-                ValueType::List(default_val) => *val == *default_val,
+                // Two empty lists compare equal whatever lists they belong to,
+                // but only one with the same origins can stand in for the other.
+                ValueType::List(default_val) => {
+                    *val == *default_val
+                        && (!val.items.is_empty()
+                            || val.get_origin_names() == default_val.get_origin_names())
+                }
                 _ => false,
             },
             ValueType::String(val) => match &default_val.value {
